@@ -9,38 +9,7 @@ import (
 // reorder), no batch is empty, and every batch of two or more packets fits the announced maxPayload.
 //
 //verif:unwind 16
-func verifH_C13_batch() {
-	N := 4
-	if verifThorough() {
-		N = 6
-	}
-	n := verifChoose(2, N)
-	pk := make([]*parser.Packet, n)
-	for i := range pk {
-		sz := verifAnyInt()
-		verifAssume(sz >= 0 && sz <= 1<<40)
-		pk[i] = &parser.Packet{Type: parser.PacketTypeMessage, IsBinary: verifAnyBool(), Data: verifAbstractBytes(sz)}
-	}
-	maxPayload := verifAnyInt64()
-	verifAssume(maxPayload >= 1 && maxPayload <= 1<<44)
-	rec := &verifRecClient{name: "polling"}
-	s := &clientSocket{transport: rec, maxPayload: maxPayload, debug: NewNoopDebugger()}
-	s.writeWritablePackets(pk...)
-
-	k := 0
-	for _, b := range rec.batches {
-		verifAssert(len(b) > 0, "no empty batch is sent")
-		for _, p := range b {
-			verifAssert(k < n && p == pk[k], "batches concatenate to the input: nothing dropped, duplicated or reordered")
-			k++
-		}
-		if len(b) > 1 {
-			verifAssert(int64(parser.EncodedPayloadsLen(b...)) <= maxPayload, "a batch of several packets never exceeds maxPayload")
-		}
-	}
-	verifAssert(k == n, "every packet is sent")
-	verifReach("end")
-}
+func verifH_C13_batch() { verifBatchBody() }
 
 // C13_batch_nolimit: with maxPayload 0 (none announced) or a non-polling transport everything goes out as one batch.
 //
